@@ -94,19 +94,19 @@ Proof.
 Qed.
 
 (* ranking by position *)
-Theorem words_laws off kind n k : 0 <= off -> group_laws off (Words kind n k).
+Theorem words_laws off kind n k : 0 <= off -> group_laws off (GWords kind n k).
 Proof.
   intros Hoff. pose proof (NoDup_words_enum kind n k) as Hn. unfold group_laws. cbn [gsize].
   split; [apply len_nonneg|]. split; [|split].
-  - unfold law_enum. cbn [indices gsize to_id].
+  - unfold law_enum. cbn [vg_indices gsize vg_to_id].
     rewrite (map_ext _ (fun v => option_map (fun p => off + 1 + p) (pos_of v (words_enum kind n k)))) by reflexivity.
     rewrite map_pos_of_self by exact Hn. f_equal. f_equal; lia.
-  - intros i x Hi Hx. cbn [to_id] in Hx. destruct (pos_of i (words_enum kind n k)) as [p|] eqn:E; [|discriminate].
+  - intros i x Hi Hx. cbn [vg_to_id] in Hx. destruct (pos_of i (words_enum kind n k)) as [p|] eqn:E; [|discriminate].
     cbn [option_map] in Hx. injection Hx as <-. apply pos_of_Some in E as [E R].
-    unfold to_index. cbn [gsize]. rewrite Z.abs_eq by lia.
+    unfold vg_to_index. cbn [gsize]. rewrite Z.abs_eq by lia.
     destruct (Z.leb_spec (off + 1) (off + 1 + p)); [|lia].
     destruct (Z.leb_spec (off + 1 + p) (off + len (words_enum kind n k))); [|lia]. cbn [andb].
     replace (off + 1 + p - off - 1) with p by lia. exact E.
-  - intros i x Hx. unfold canon. cbn [to_core of_core]. split; [|exact Hx]. cbn [to_id indices] in *.
+  - intros i x Hx. unfold canon. cbn [to_core of_core]. split; [|exact Hx]. cbn [vg_to_id vg_indices] in *.
     destruct (pos_of i (words_enum kind n k)) as [p|] eqn:E; [|discriminate]. apply pos_of_Some in E as [E _]. eapply znth_In; eauto.
 Qed.
